@@ -75,7 +75,7 @@ pub fn run(ctx: &Ctx, replay: Option<&J>) -> CheckResult {
     crate::crc::self_check();
     let rule = "for every payload length L=0..=1023: frames with random payload and random reserved bits, and near-misses derived \
         from them (wrong preamble, every truncation length 0..L+5, each checksum bit flipped, checksum byte changed/swapped, \
-        length field +-1/random with and without trailing bytes, payload bit flips, trailing bytes, other reserved bits; all 64 reserved-bit patterns for every length = all 65536 header patterns, alone and followed by >1029 bytes), plus random \
+        length field +-1/random with and without trailing bytes, payload bit flips, trailing bytes, other reserved bits; all 64 reserved-bit patterns for every length = all 65536 header patterns, alone and followed by >1029 bytes; frames at the start of slices of 65535..131077 bytes), plus random \
         and D3-prefixed random slices; oracle = own CRC-24Q acceptance predicate compared with MessageFrame::new incl. \
         reported lengths/payload/checksum and error kind. non-trivial = accepted frame or near-miss derived from one; distinct = hash of the slice bytes"
         .to_string();
@@ -84,7 +84,19 @@ pub fn run(ctx: &Ctx, replay: Option<&J>) -> CheckResult {
         "for slices not starting with 0xD3 only 'not accepted' is asserted (the statement fixes no error kind there)".to_string(),
     ];
     if let Some(case) = replay {
-        let s = unhex(case["bytes"].as_str().unwrap_or("")).unwrap_or_default();
+        let mut s = unhex(case["bytes"].as_str().unwrap_or("")).unwrap_or_default();
+        if case["kind"] == "long-slice" {
+            s = unhex(case["frame"].as_str().unwrap_or("")).unwrap_or_default();
+            let total = case["total_len"].as_u64().unwrap_or(0) as usize;
+            let mut rng = ctx.rng("c03-big", case["l"].as_u64().unwrap_or(0));
+            let l = case["l"].as_u64().unwrap_or(0) as usize;
+            let _ = rng.bytes(l);
+            let filler = rng.bytes(140_000);
+            if total > s.len() {
+                let need = total - s.len();
+                s.extend_from_slice(&filler[..need.min(filler.len())]);
+            }
+        }
         let mut ev = Evidence::new();
         ev.eval();
         let mut vs = Vec::new();
@@ -247,6 +259,53 @@ pub fn run(ctx: &Ctx, replay: Option<&J>) -> CheckResult {
     for (e, v) in parts {
         ev.merge(e);
         vs.extend(v);
+    }
+    // very long slices: a valid (or nearly valid) frame followed by so much data that the slice length crosses 2^16, 2^17
+    // (lengths chosen around the wrap points of 16-bit arithmetic, incl. len mod 65536 < L+6)
+    {
+        let big: Vec<(Evidence, Vec<Violation>)> = [0usize, 1, 2, 5, 19, 100, 255, 256, 700, 1022, 1023]
+            .par_iter()
+            .map(|l| {
+                let mut ev = Evidence::new();
+                let mut vs: Vec<Violation> = Vec::new();
+                let mut rng = ctx.rng("c03-big", *l as u64);
+                let p = rng.bytes(*l);
+                let f = frame_with_reserved(&p, if l % 2 == 0 { 0 } else { 21 });
+                let filler = rng.bytes(140_000);
+                for total in [65_535usize, 65_536, 65_537, 65_536 + l + 5, 65_536 + l + 6, 65_536 + l + 7, 70_000, 131_071, 131_072, 131_072 + 3, 131_072 + l + 5] {
+                    let mut g = f.clone();
+                    g.extend_from_slice(&filler[..total - f.len()]);
+                    ev.evaluations += 1;
+                    match oracle(&g) {
+                        Ok(c) => {
+                            ev.class(&format!("long-slice/{}", c));
+                            ev.nontrivial_hash(hash_u64s(&[*l as u64, total as u64, 1]));
+                        }
+                        Err((sig, msg)) => {
+                            if vs.is_empty() {
+                                vs.push(viol(sig, format!("slice of {} bytes: {}", total, msg), &g[..f.len() + 8], "long-slice(only the first bytes are kept in the replay; total length in the message)"));
+                                vs.last_mut().unwrap().case = json!({"kind":"long-slice","frame":hex(&f),"total_len":total,"filler_seed_label":"c03-big","l":l});
+                            }
+                        }
+                    }
+                    // the same with a damaged checksum
+                    let n = f.len();
+                    g[n - 1] ^= 0x40;
+                    ev.evaluations += 1;
+                    if let Err((sig, msg)) = oracle(&g) {
+                        if vs.is_empty() {
+                            vs.push(viol(sig, format!("slice of {} bytes: {}", total, msg), &g[..f.len() + 8], "long-slice"));
+                            vs.last_mut().unwrap().case = json!({"kind":"long-slice","frame":hex(&g[..n]),"total_len":total,"filler_seed_label":"c03-big","l":l});
+                        }
+                    }
+                }
+                (ev, vs)
+            })
+            .collect();
+        for (e, v) in big {
+            ev.merge(e);
+            vs.extend(v);
+        }
     }
     ev.extra.insert("payload_lengths_enumerated".into(), json!("0..=1023 (all)"));
     ev.extra.insert("exhaustive_subdomain".into(), json!("payload length L and truncation length are enumerated completely; payload contents are sampled"));
